@@ -44,3 +44,19 @@ Example exL_infeasible :
   nth_error (l_subs exL_s1) 0 = Some (7%nat, exL_comp) /\
   feasible (c_desc (l_core exL_s1)) (length (status (c_st (l_core exL_s1)))) 2 = true.
 Proof. repeat split; cbn; lia. Qed.
+
+(* hypotheses of solve_over_infeasible_raises: a model with one LEAD on a 4-period span, solve(end=<last label>) from the
+   default start: the range 0..3 contains position 3, which has no room for the lead *)
+Require Import SolveAll EvalSolveReject.
+Require Fsic.Solver.SolveAllFacts.
+Definition ex_d_lead : mdesc := mkDesc [0%nat] [0%nat] 0%nat 1%nat.
+Example ex_end_infeasible_hyps :
+  SolveAllFacts.given_ok Z (locate_index [10; 11; 12; 13]) None 0 /\
+  SolveAllFacts.given_ok Z (locate_index [10; 11; 12; 13]) (Some 13) 3 /\
+  SolveAllFacts.resolves_start Z ex_d_lead [10; 11; 12; 13] None 0 /\
+  SolveAllFacts.resolves_end Z ex_d_lead [10; 11; 12; 13] (Some 13) 3 /\
+  (0 <= 3 <= 3)%nat /\ feasible ex_d_lead 4 3 = false /\ infeasible_at ex_d_lead 4 (-1).
+Proof.
+  split; [exact I|]. split; [reflexivity|]. split; [cbn; lia|]. split; [reflexivity|]. split; [lia|]. split; [reflexivity|].
+  exists 3%nat. split; reflexivity.
+Qed.
